@@ -53,6 +53,15 @@ def term_size(t, cap):
     return n
 
 
+def heap_unchanged(base, other):
+    """every object of `base` is untouched in `other` (objects allocated since do not count)"""
+    oh = other.heap
+    for oid, p in base.heap.items():
+        if oh.get(oid) is not p:
+            return False
+    return True
+
+
 class Raise(Exception):
     """unconditional raise during expression evaluation"""
 
@@ -1036,7 +1045,7 @@ class Interp:
             sb.pc.append(z3.Not(c))
             va = self.eval(e.body, sa)
             vb = self.eval(e.orelse, sb)
-            if not sa.pend and not sb.pend and not sa.alts and not sb.alts and sa.heap == st.heap and sb.heap == st.heap:
+            if not sa.pend and not sb.pend and not sa.alts and not sb.alts and heap_unchanged(st, sa) and heap_unchanged(st, sb):
                 n = len(st.pc)
                 r = merge_value(c, va, vb, sa, sb, st)
                 # facts recorded while evaluating an arm hold under that arm's condition
@@ -1071,7 +1080,7 @@ class Interp:
         s2.pc.append(t if is_and else z3.Not(t))
         try:
             rest = self._boolop(exprs[1:], is_and, s2)
-            pure = not s2.pend and not s2.alts and s2.heap == st.heap
+            pure = not s2.pend and not s2.alts and heap_unchanged(st, s2)
             if pure:
                 n = len(st.pc)
                 guard = t if is_and else z3.Not(t)
